@@ -79,6 +79,8 @@ def graph_req(G, lab, case):
 
 # ------------------------------------------------------------------------------------------ Gillespie SIR / SIS
 def gillespie_case(rng, sis, **kw):
+    # one weighted case in three also draws zero weights: an edge that never transmits, a node that never recovers
+    kw.setdefault("zero_w", rng.random() < 1 / 3)
     c = graph_case(rng, weighted_e=rng.random() < 0.5, weighted_n=rng.random() < 0.5, **kw)
     n = c["n"]
     c["sis"] = sis
